@@ -4,7 +4,7 @@
     scriptable reference peers of vlib/reftls.py) x every message type byte.
 (2) A key-holding adversary server performs the real key exchange with an
     aioquic client and sends every ordered sub-multiset of
-    {EE, CertificateRequest, Certificate, CertificateVerify (genuine / wrong key), Finished},
+    {EE, CertificateRequest, Certificate, Certificate with an empty list, CertificateVerify (genuine / wrong key), Finished},
     recomputing signatures and the Finished MAC over exactly the transcript it
     sent; likewise the client flight against an aioquic server; PSK handshakes.
 Oracle: reference TLS 1.3 order automaton + traffic-key release trace.
@@ -222,7 +222,7 @@ def server_flight_sequences(ctx, maxlen, part, nparts, psk, leaf="ed25519"):
     from vlib import endpoints as E, tlsbench as B, reftls as L
 
     other_key = E.load_key("client.key")  # same key type as the leaf (Ed25519), different key
-    alphabet = ["EE", "CR", "Cert", "CV", "CVbad", "Fin"] if not psk else ["EE", "Cert", "CV", "Fin"]
+    alphabet = ["EE", "CR", "Cert", "CertEmpty", "CV", "CVbad", "Fin"] if not psk else ["EE", "Cert", "CertEmpty", "CV", "Fin"]
     legal_list = [("EE", "Fin")] if psk is True else [("EE", "Cert", "CV", "Fin"), ("EE", "CR", "Cert", "CV", "Fin")]
     ticket = None
     psk_secret = {}
@@ -284,6 +284,8 @@ def server_flight_sequences(ctx, maxlen, part, nparts, psk, leaf="ed25519"):
                     m = s.certificate_request()
                 elif sym == "Cert":
                     m = s.certificate()
+                elif sym == "CertEmpty":
+                    m = s.certificate(chain=[])
                 elif sym == "CV":
                     m = s.certificate_verify()
                 elif sym == "CVbad":
@@ -467,7 +469,7 @@ def quic_flight_sequences(ctx, maxlen, part, nparts, adversary, only=None):
     from vlib import endpoints as E, tlspeer as TP
 
     other_key = E.load_key("client.key")
-    alphabet = ["EE", "CR", "Cert", "CV", "CVbad", "Fin"]
+    alphabet = ["EE", "CR", "Cert", "CertEmpty", "CV", "CVbad", "Fin"]
     nxt = {("EE", "EE"): "CR|Cert", ("CR|Cert", "CR"): "Cert", ("CR|Cert", "Cert"): "CV", ("Cert", "Cert"): "CV", ("CV", "CV"): "Fin", ("Fin", "Fin"): "done"}
     i = 0
     for seq in multiset_sequences(alphabet, maxlen) if only is None else [tuple(only)]:
@@ -492,6 +494,8 @@ def quic_flight_sequences(ctx, maxlen, part, nparts, adversary, only=None):
                     m = ref.certificate_request()
                 elif sym == "Cert":
                     m = ref.certificate()
+                elif sym == "CertEmpty":
+                    m = ref.certificate(chain=[])
                 elif sym == "CV":
                     m = ref.certificate_verify()
                 elif sym == "CVbad":
